@@ -304,6 +304,20 @@ func S4() []*Grammar {
 			{Head: "S", Body: []Sym{l, {Name: "S"}}},
 		}})
 	}
+	// the same hostile terminals as the ONLY terminal on which the grammar conflicts (shift/reduce in E : E L E | a,
+	// reduce/reduce in S : A L | B L): the conflict has to be found whatever the terminal is called
+	for _, c := range []string{"x\ny", "\r", "\"", "\\", "`", "\x00", "\uFEFF", "\xff", "é", "a b", "//", "*/"} {
+		l := Sym{Name: c, Str: true}
+		out = append(out, &Grammar{Lex: tokDefs([]string{"a"}), Alts: []Alt{
+			{Head: "E", Body: []Sym{{Name: "E"}, l, {Name: "E"}}},
+			{Head: "E", Body: []Sym{{Name: "a"}}},
+		}}, &Grammar{Lex: tokDefs([]string{"a"}), Alts: []Alt{
+			{Head: "S", Body: []Sym{{Name: "A"}, l}},
+			{Head: "S", Body: []Sym{{Name: "B"}, l}},
+			{Head: "A", Body: []Sym{{Name: "a"}}},
+			{Head: "B", Body: []Sym{{Name: "a"}}},
+		}})
+	}
 	// long bodies: attribute indices with two digits
 	out = append(out, Mk("S: a b c a b c a b c a b c | c S"), Mk("S: A A A A A A A A A A A b | b ; A: a | empty"))
 	return out
